@@ -167,7 +167,7 @@ def _validate_chunk(module, cfg, lines, dest, timeout, cover=False):
     if mv:
         # a monitor invariant failed in the state reached by consuming line l - 1
         ls = re.findall(r"/\\ l = (\d+)", out)
-        why = re.findall(r'(?:b\d\d|bad) \|-> \{("[^}]*")\}', out)
+        why = [re.sub(r"\s+", " ", w) for w in re.findall(r'(?:b\d\d|bad) \|->\s*\{\s*("[^}]*?")\s*\}', out, re.S)]
         return ("inv", mv.group(1), int(ls[-1]) - 1 if ls else (int(m.group(1)) if m else 0),
                 why[-1] if why else ""), r
     if m:
